@@ -49,8 +49,12 @@ def gen_cases(rng, tier):
     model = spec.gen_eam_model(rng, kind, groute, target="DL_POLY_EAM" if kind == "eam" else "DL_POLY_EAM_fs")
     if i % 12 == 7:
       model = spec.numeric_species(rng, model)      # species labelled '9', '10', '2', '100'
+    if i % 12 == 3 and groute == "potable":
+      model = spec.ion_labels(rng, model)           # species labelled 'F-', 'Na+', 'Ca2+': 'F-->Ca' in A->B keys
     if groute == "api":
       model["api_containers"] = rng.choice([None, None, "tuple", "generator", "map", "amend_after_write"])
+      if i % 3 == 1:
+        model["api_density_lookup"] = "on_demand"     # functions made on lookup: a new callable object per access
       if i % 4:
         # functions that return 0-d numpy arrays: fresh ones, integer-typed ones where the value is whole, memoised ones
         # (the same array object again for the same separation - it must come back unchanged)
@@ -89,7 +93,7 @@ def produce(ctx, model, route, rng):
     import atsim.potentials as ap
     pots, eams = routes.vary_containers(model, routes.eam_api_objects(model)[:2])
     nr, nrho = int(t["nr"]), int(t["nrho"])
-    out = io.StringIO()
+    out = routes.text_sink()
     fn = ap.writeTABEAMFinnisSinclair if model["type"] == "fs" else ap.writeTABEAM
     fn(nrho, float(t["cutoff_rho"]) / (nrho - 1), nr, float(t["cutoff"]) / (nr - 1), eams, pots, out, "title %d" % rng.randint(0, 99))
     return out.getvalue()
